@@ -355,6 +355,66 @@ def duplicate_spelling_pass(ctx):
                     break
 
 
+def containers_and_dimensions_pass(ctx):
+    """(a) coefficients held in ONE numpy array of a dtype that float64 cannot hold (complex, int64 beyond 2**53, object with
+    Fractions): asfullmv (both orders), grade, items, attribute access return exactly the supplied numbers; (b) positional value
+    lists in d = 7, 8 (every table is built lazily there): the k-th value of `bivector(list)`, `purevector(list, grade)`,
+    `evenmv(list)`, `multivector(list, grades=..)` and a full list lands on the k-th blade of those grades in canonical order
+    (grade by grade, ascending combinations of the basis vectors)"""
+    import numpy as np
+    from fractions import Fraction
+    from kingdon import Algebra
+    rng = ctx.rng
+    alg = Algebra(3)
+    arrays = {'complex128': np.array([1 + 2j, 3 - 1j, 0.5j]), 'int64>2**53': np.array([2 ** 60 + 1, 2 ** 61 + 3, -(2 ** 59) - 7], dtype=np.int64),
+              'object(Fraction)': np.array([Fraction(1, 3), Fraction(2, 7), Fraction(5)], dtype=object), 'float64': np.array([0.5, 1.25, -2.0])}
+    for dname, arr in arrays.items():
+        for ctor, keys in (('vector', (1, 2, 4)), ('bivector', (3, 5, 6))):
+            x = getattr(alg, ctor)(arr)
+            supplied = {k: arr[i] for i, k in enumerate(keys)}
+            for form, thunk in (('asfullmv()', lambda: x.asfullmv()), ('asfullmv(canonical=False)', lambda: x.asfullmv(canonical=False)),
+                                ('grade(g)', lambda: x.grade(1 if ctor == 'vector' else 2)), ('map(identity)', lambda: x.map(lambda v: v))):
+                case = {'dtype': dname, 'constructor': ctor, 'read_back_through': form}
+                ctx.case(case, tag='array-dtypes')
+                try:
+                    y = thunk()
+                    got = {int(k): v for k, v in zip(y.keys(), y.values())}
+                except Exception as ex:
+                    ctx.violation('roundtrip', case, str(supplied)[:200], 'raises ' + repr(ex)[:150], key=f'roundtrip:array-dtype:raises:{dname}')
+                    continue
+                bad = [k for k in supplied if not (k in got and got[k] == supplied[k] and type(got[k]) == type(supplied[k]))]
+                extra = [k for k, v in got.items() if k not in supplied and v != 0]
+                if bad or extra:
+                    ctx.violation('roundtrip', {**case, 'blades': bad + extra}, str(supplied)[:200], str({k: got.get(k) for k in bad + extra})[:200], key=f'roundtrip:array-dtype:{dname}')
+    import itertools as it
+    for d in (7, 8) if not ctx.quick else (7,):
+        alg = Algebra(d)
+        canon = lambda g: [sum(1 << i for i in c) for c in it.combinations(range(d), g)]
+        forms = [('bivector(list)', lambda vs: alg.bivector(vs), [2]), ('purevector(list, grade=3)', lambda vs: alg.purevector(vs, grade=3), [3]),
+                 ('evenmv(list)', lambda vs: alg.evenmv(vs), list(range(0, d + 1, 2))), ('multivector(list, grades=(1, 2))', lambda vs: alg.multivector(vs, grades=(1, 2)), [1, 2]),
+                 ('vector(list)', lambda vs: alg.vector(vs), [1]), ('multivector(full list)', lambda vs: alg.multivector(vs), list(range(d + 1)))]
+        for fname, ctor, gs in forms:
+            keys = [k for g in gs for k in canon(g)]
+            vals = list(range(1, len(keys) + 1))
+            case = {'d': d, 'form': fname}
+            ctx.case(case, tag='positional-highdim')
+            try:
+                x = ctor(vals)
+                got = {int(k): v for k, v in zip(x.keys(), x.values())}
+            except Exception as ex:
+                ctx.violation('roundtrip', case, 'a multivector', 'raises ' + repr(ex)[:150], key='roundtrip:positional-highdim:raises')
+                continue
+            exp = dict(zip(keys, vals))
+            if got != exp:
+                bad = [k for k in exp if got.get(k) != exp[k]][:4]
+                ctx.violation('roundtrip', {**case, 'blades': bad}, str({k: exp[k] for k in bad}), str({k: got.get(k) for k in bad}), key='roundtrip:positional-highdim')
+                continue
+            probe = rng.sample(keys, min(6, len(keys)))
+            names = {k: alg.bin2canon[k] for k in probe}
+            if any(getattr(x, names[k]) != exp[k] for k in probe):
+                ctx.violation('roundtrip', {**case, 'check': 'attribute access'}, str({names[k]: exp[k] for k in probe}), str({names[k]: getattr(x, names[k]) for k in probe}), key='roundtrip:positional-highdim:getattr')
+
+
 def simp_func_pass(ctx):
     """filter() without an argument on algebras with a custom simp_func (predicate style and value style): it selects by
     simp_func and reflects exactly the supplied coefficients"""
@@ -409,6 +469,7 @@ def run(ctx):
     cfgs.append(([rng.choice((1, -1, 0)) for _ in range(3)], None, random_custom_basis(rng, 3, 13), False))
     simp_func_pass(ctx)
     duplicate_spelling_pass(ctx)
+    containers_and_dimensions_pass(ctx)
     lines, plan = [], []
     # several algebras are alive at the same time and are used alternately (shared-state defects)
     algs = [(make_algebra(sig, start, basis, graded=graded), sig, start, basis, graded) for sig, start, basis, graded in cfgs]
